@@ -1320,6 +1320,13 @@ class LogixDriver(CIPDriver):
 
             tag_info = self._get_tag_info(base, attrs)
 
+            if bit is not None and tag_info["tag_type"] == "atomic":
+                _size = getattr(DataTypes.get(tag_info["data_type"]), "size", 0)
+                if _size and bit >= _size * 8:
+                    raise RequestError(
+                        f"Bit {bit} is out of range for {tag_info['data_type']} tag {tag}"
+                    )
+
             if tag_info["data_type"] == "DWORD":
                 _tag, idx = util.get_array_index(tag)
                 if idx is not None:
